@@ -1,9 +1,12 @@
-import TracklibVerif.Lemmas.ObsTime
+import TracklibVerif.Lemmas.ObsTimeG
+import Mathlib.Algebra.Order.Floor.Ring
+import Mathlib.Data.Rat.Floor
 /-! # C03 — timestamps convert to and from epoch seconds without drifting or deforming
 
-Property theorems only (helper lemmas are in `Lemmas/ObsTime.lean`). The model
-(`Model/ObsTime.lean`) is in integer milliseconds; all statements are for every instant /
-every well-formed stamp, with no bound on the year. -/
+Property theorems only (helper lemmas are in `Lemmas/ObsTime.lean`, `Lemmas/ObsTimeG.lean`). T1–T6 are about the
+integer model (`Model/ObsTime.lean`, integer milliseconds); T7–T14 are about the scalar-polymorphic model of the
+float path (`Model/ObsTimeG.lean`) over a linearly ordered field with an exact `int()`, and reduce it to the
+integer model. All statements are for every instant / every well-formed stamp, with no bound on the year. -/
 namespace TV.C03
 open TV.ObsTime
 
@@ -69,5 +72,194 @@ example : WFs ⟨⟨2000, 2, 29, 23, 59, 59⟩, 999⟩ := by unfold WFs WF month
 example : readUnixMs (toAbsMs ⟨⟨2000, 2, 29, 23, 59, 59⟩, 999⟩) = ⟨⟨2000, 2, 29, 23, 59, 59⟩, 999⟩ := by decide +kernel
 /-- regression witness for the defect repaired by the first `fix:` commit: the first second of 1971. -/
 example : readUnixMs 31536000000 = ⟨⟨1971, 1, 1, 0, 0, 0⟩, 0⟩ := by decide +kernel
+
+/-! ## The float path: `readUnixTime(x)` on fractional seconds, `toAbsTime()` as a scalar, `addSec` with
+fractional and negative amounts, `__sub__`
+
+The statements are over a linearly ordered field `α` with an exact truncation (`TruncZ trunc`: `trunc` is
+Python's `int()` on non-negative reals). They need exact arithmetic: IEEE rounding of `toAbsTime()`'s
+`ms / 1000.0` and of the sum, and of `elapsed_seconds * 1000`, is outside them (a float `toAbsTime()` of a stamp
+with `ms = 57` is slightly below `….057` and reads back as 56 ms: within the property's millisecond, and
+covered by the exact correspondence of the same definitions at `Float`). -/
+section FloatPath
+variable {α : Type} [Field α] [LinearOrder α] [IsStrictOrderedRing α]
+
+/-- T7: for every `x ≥ 0` the float reader, run operation for operation (year loop on `elapsed - sec` with the
+integer accumulator, month loop, the three truncated divisions, `ms = int(frac * 1000)`), returns the calendar
+fields of the integer reader on `⌊x⌋` and `⌊(x − ⌊x⌋)·1000⌋` milliseconds; in particular the year loop ends. -/
+theorem readUnixG_eq (trunc : α → Int) (htr : TruncZ trunc) (x : α) (hx : 0 ≤ x) :
+    readUnixG trunc x = some (readUnixSpec trunc x).toZ := by
+  obtain ⟨hf0, hf1⟩ := frac_bounds trunc htr x hx
+  have e : x = ((trunc x).toNat : α) + (x - ((trunc x).toNat : α)) := by ring
+  conv_lhs => rw [e]
+  exact readUnixG_nat_add_frac trunc htr _ _ hf0 hf1
+
+/-- T8: the stamp read from any `x ≥ 0` is well formed (month 1–12, a day of that month, hour 0–23,
+minute and second 0–59, **millisecond 0–999**). -/
+theorem readUnixG_wellFormed (trunc : α → Int) (htr : TruncZ trunc) (x : α) (hx : 0 ≤ x) :
+    WFs (readUnixSpec trunc x) := by
+  obtain ⟨hf0, hf1⟩ := frac_bounds trunc htr x hx
+  exact ⟨(readUnix_spec _).1, (ms_bounds trunc htr _ hf0 hf1).1⟩
+
+/-- T9: "the same instant to within one millisecond": `0 ≤ x − toAbsTime(readUnixTime(x)) < 1/1000`. -/
+theorem readUnixG_within_ms (trunc : α → Int) (htr : TruncZ trunc) (x : α) (hx : 0 ≤ x) :
+    0 ≤ x - toAbsG (readUnixSpec trunc x).toZ ∧ x - toAbsG (readUnixSpec trunc x).toZ < 1 / 1000 := by
+  obtain ⟨hf0, hf1⟩ := frac_bounds trunc htr x hx
+  obtain ⟨-, hk1, hk2⟩ := ms_bounds trunc htr _ hf0 hf1
+  have hw := readUnixG_wellFormed trunc htr x hx
+  rw [toAbsG_toZ _ hw.1.2.2.2.1]
+  have hs : toAbsSec (readUnixSec (trunc x).toNat) = (trunc x).toNat := (readUnix_spec _).2
+  simp only [toAbsMs, hs, readUnixSpec, Nat.cast_add, Nat.cast_mul, Nat.cast_ofNat] at hk1 hk2 ⊢
+  constructor <;> linarith
+
+/-- T7–T9 in one statement about the mirrored code: `readUnixTime(x)` returns a well-formed stamp whose
+`toAbsTime()` is at most `x` and more than `x − 1 ms`. -/
+theorem readUnixG_spec (trunc : α → Int) (htr : TruncZ trunc) (x : α) (hx : 0 ≤ x) :
+    ∃ s : Stamp, readUnixG trunc x = some s.toZ ∧ WFs s
+      ∧ 0 ≤ x - toAbsG s.toZ ∧ x - toAbsG s.toZ < 1 / 1000 :=
+  ⟨readUnixSpec trunc x, readUnixG_eq trunc htr x hx, readUnixG_wellFormed trunc htr x hx,
+    readUnixG_within_ms trunc htr x hx⟩
+
+/-- T10: calendar → `toAbsTime()` → `readUnixTime` is the identity on every well-formed stamp, the
+millisecond field included ("exactly the same timestamp"), when the arithmetic is exact. -/
+theorem readUnixG_toAbsG (trunc : α → Int) (htr : TruncZ trunc) (s : Stamp) (h : WFs s) :
+    readUnixG trunc (toAbsG s.toZ) = some s.toZ := by
+  obtain ⟨hd, hms⟩ := h
+  have e : (toAbsG s.toZ : α) = ((toAbsSec s.d : Nat) : α) + (s.ms : α) / 1000 := by
+    rw [toAbsG_toZ s hd.2.2.2.1]; simp only [toAbsMs, Nat.cast_add, Nat.cast_mul, Nat.cast_ofNat]; ring
+  have hf0 : (0 : α) ≤ (s.ms : α) / 1000 := by positivity
+  have hf1 : (s.ms : α) / 1000 < 1 := by
+    rw [div_lt_one (by norm_num)]; exact_mod_cast hms
+  rw [e, readUnixG_nat_add_frac trunc htr _ _ hf0 hf1, ms_exact trunc htr, ObsTime.readUnix_toAbs s.d hd]
+
+/-- T11: `addSec(a)` for any scalar amount `a` (fractional, negative) that does not lead before 1970:
+the result is well formed and denotes `toAbsTime() + a` to within one millisecond (truncated). -/
+theorem addSecG_spec (trunc : α → Int) (htr : TruncZ trunc) (t : StampZ) (a : α) (h : 0 ≤ toAbsG t + a) :
+    ∃ r : Stamp, addSecG trunc t a = some r.toZ ∧ WFs r
+      ∧ 0 ≤ (toAbsG t + a) - toAbsG r.toZ ∧ (toAbsG t + a) - toAbsG r.toZ < 1 / 1000 :=
+  readUnixG_spec trunc htr _ h
+
+/-- `addMin`, `addHour`, `addDay`: the same with the amount multiplied by 60, 3600, 86400. -/
+theorem addMinG_spec (trunc : α → Int) (htr : TruncZ trunc) (t : StampZ) (a : α) (h : 0 ≤ toAbsG t + a * 60) :
+    ∃ r : Stamp, addMinG trunc t a = some r.toZ ∧ WFs r
+      ∧ 0 ≤ (toAbsG t + a * 60) - toAbsG r.toZ ∧ (toAbsG t + a * 60) - toAbsG r.toZ < 1 / 1000 := by
+  have := readUnixG_spec trunc htr (toAbsG t + a * 60) h
+  simpa [addMinG] using this
+theorem addHourG_spec (trunc : α → Int) (htr : TruncZ trunc) (t : StampZ) (a : α) (h : 0 ≤ toAbsG t + a * 3600) :
+    ∃ r : Stamp, addHourG trunc t a = some r.toZ ∧ WFs r
+      ∧ 0 ≤ (toAbsG t + a * 3600) - toAbsG r.toZ ∧ (toAbsG t + a * 3600) - toAbsG r.toZ < 1 / 1000 := by
+  have := readUnixG_spec trunc htr (toAbsG t + a * 3600) h
+  simpa [addHourG] using this
+theorem addDayG_spec (trunc : α → Int) (htr : TruncZ trunc) (t : StampZ) (a : α) (h : 0 ≤ toAbsG t + a * 86400) :
+    ∃ r : Stamp, addDayG trunc t a = some r.toZ ∧ WFs r
+      ∧ 0 ≤ (toAbsG t + a * 86400) - toAbsG r.toZ ∧ (toAbsG t + a * 86400) - toAbsG r.toZ < 1 / 1000 := by
+  have := readUnixG_spec trunc htr (toAbsG t + a * 86400) h
+  simpa [addDayG] using this
+
+/-- T12: adding a whole number `k` of seconds, **negative included**, to a well-formed stamp moves the instant
+by exactly `k` seconds and keeps the millisecond field (the float path agrees with the integer model's
+`readUnixMs (toAbsMs t + 1000 k)`; with `toAbs_readUnix` the instant is `toAbsMs t + 1000 k` exactly). -/
+theorem addSecG_whole (trunc : α → Int) (htr : TruncZ trunc) (t : Stamp) (h : WFs t) (k : Int)
+    (hk : 0 ≤ (toAbsMs t : Int) + k * 1000) :
+    addSecG trunc t.toZ ((k : Int) : α) = some (readUnixMs ((toAbsMs t : Int) + k * 1000).toNat).toZ := by
+  obtain ⟨hd, hms⟩ := h
+  have hn : 0 ≤ (toAbsSec t.d : Int) + k := by unfold toAbsMs at hk; omega
+  obtain ⟨n, hn'⟩ := Int.eq_ofNat_of_zero_le hn
+  have e : (toAbsG t.toZ : α) + ((k : Int) : α) = ((n : Nat) : α) + (t.ms : α) / 1000 := by
+    rw [toAbsG_toZ t hd.2.2.2.1]
+    have : ((n : Nat) : α) = ((toAbsSec t.d : Nat) : α) + ((k : Int) : α) := by
+      rw [← Int.cast_natCast (R := α) n, ← hn']; push_cast; ring
+    rw [this]; simp only [toAbsMs, Nat.cast_add, Nat.cast_mul, Nat.cast_ofNat]; ring
+  have hf0 : (0 : α) ≤ (t.ms : α) / 1000 := by positivity
+  have hf1 : (t.ms : α) / 1000 < 1 := by
+    rw [div_lt_one (by norm_num)]; exact_mod_cast hms
+  have hT : ((toAbsMs t : Int) + k * 1000).toNat = n * 1000 + t.ms := by unfold toAbsMs at hk ⊢; omega
+  unfold addSecG
+  rw [e, readUnixG_nat_add_frac trunc htr _ _ hf0 hf1, ms_exact trunc htr, hT]
+  unfold readUnixMs
+  have e1 : (n * 1000 + t.ms) / 1000 = n := by omega
+  have e2 : (n * 1000 + t.ms) % 1000 = t.ms := by omega
+  rw [e1, e2]
+
+/-- T13: the comparison operators order well-formed stamps exactly as their `toAbsTime()` values
+(seconds since 1970, as scalars) do, and as the sign of `__sub__` does. -/
+theorem cmp_iff_seconds (a b : Stamp) (ha : WFs a) (hb : WFs b) :
+    (ltS a b = true ↔ (toAbsG a.toZ : α) < toAbsG b.toZ)
+    ∧ (gtS a b = true ↔ (toAbsG a.toZ : α) > toAbsG b.toZ)
+    ∧ (eqS a b = true ↔ (toAbsG a.toZ : α) = toAbsG b.toZ)
+    ∧ (leS a b = true ↔ (toAbsG a.toZ : α) ≤ toAbsG b.toZ)
+    ∧ (geS a b = true ↔ (toAbsG a.toZ : α) ≥ toAbsG b.toZ)
+    ∧ (neS a b = true ↔ (toAbsG a.toZ : α) ≠ toAbsG b.toZ) := by
+  have da := ha.1.2.2.2.1
+  have db := hb.1.2.2.2.1
+  have hlt := (lt_iff a b ha hb).trans (toAbsG_lt_iff (α := α) a b da db).symm
+  have hgt := (gt_iff a b ha hb).trans (toAbsG_lt_iff (α := α) b a db da).symm
+  have heq := (eq_iff a b ha hb).trans (toAbsG_eq_iff (α := α) a b da db).symm
+  refine ⟨hlt, hgt, heq, ?_, ?_, ?_⟩
+  · unfold leS; rw [← not_lt, ← hgt]; simp
+  · unfold geS; rw [ge_iff_le, ← not_lt, ← hlt]; simp
+  · have heq' := (eq_iff b a hb ha).trans (toAbsG_eq_iff (α := α) b a db da).symm
+    unfold neS; rw [ne_comm, Ne, ← heq']; simp
+
+/-- `t1 - t2` (`__sub__`) is the difference of the epoch milliseconds over 1000; its sign is the comparison. -/
+theorem sub_spec (a b : Stamp) (ha : WFs a) (hb : WFs b) :
+    (subG a.toZ b.toZ : α) = ((toAbsMs a : α) - (toAbsMs b : α)) / 1000
+    ∧ (ltS a b = true ↔ (subG a.toZ b.toZ : α) < 0)
+    ∧ (gtS a b = true ↔ (subG a.toZ b.toZ : α) > 0)
+    ∧ (eqS a b = true ↔ (subG a.toZ b.toZ : α) = 0) := by
+  obtain ⟨h1, h2, h3, -⟩ := cmp_iff_seconds (α := α) a b ha hb
+  refine ⟨?_, ?_, ?_, ?_⟩
+  · unfold subG; rw [toAbsG_toZ a ha.1.2.2.2.1, toAbsG_toZ b hb.1.2.2.2.1]; ring
+  · rw [h1]; unfold subG; exact sub_neg.symm
+  · rw [h2]; unfold subG; exact sub_pos.symm
+  · rw [h3]; unfold subG; exact sub_eq_zero.symm
+
+/-- the field-wise cascades evaluated on float-path stamps (integer-valued fields) are those of the integer model -/
+theorem cmpZ_toZ (a b : Stamp) :
+    ltZ a.toZ b.toZ = ltS a b ∧ gtZ a.toZ b.toZ = gtS a b ∧ eqZ a.toZ b.toZ = eqS a b :=
+  ⟨ltZ_toZ a b, gtZ_toZ a b, eqZ_toZ a b⟩
+
+/-- T14: reading is monotone: `0 ≤ x ≤ y` implies `readUnixTime(x) <= readUnixTime(y)` (so a chronological
+sequence of float instants stays chronological when stamped). -/
+theorem readUnixG_monotone (trunc : α → Int) (htr : TruncZ trunc) (x y : α) (hx : 0 ≤ x) (hxy : x ≤ y) :
+    leS (readUnixSpec trunc x) (readUnixSpec trunc y) = true := by
+  have hy : 0 ≤ y := le_trans hx hxy
+  rw [le_iff _ _ (readUnixG_wellFormed trunc htr x hx) (readUnixG_wellFormed trunc htr y hy)]
+  obtain ⟨fx0, fx1⟩ := frac_bounds trunc htr x hx
+  obtain ⟨fy0, fy1⟩ := frac_bounds trunc htr y hy
+  obtain ⟨-, kx1, -⟩ := ms_bounds trunc htr _ fx0 fx1
+  obtain ⟨-, -, ky2⟩ := ms_bounds trunc htr _ fy0 fy1
+  have sx : toAbsSec (readUnixSec (trunc x).toNat) = (trunc x).toNat := (readUnix_spec _).2
+  have sy : toAbsSec (readUnixSec (trunc y).toNat) = (trunc y).toNat := (readUnix_spec _).2
+  simp only [toAbsMs, sx, sy, readUnixSpec]
+  have : (((trunc x).toNat * 1000 + (trunc ((x - ((trunc x).toNat : α)) * 1000)).toNat : Nat) : α)
+      < (((trunc y).toNat * 1000 + (trunc ((y - ((trunc y).toNat : α)) * 1000)).toNat + 1 : Nat) : α) := by
+    push_cast; linarith
+  have := Nat.cast_lt.mp this
+  omega
+
+end FloatPath
+
+/-- `ObsTime()` (the defaults of `__init__`) is the epoch: the stamp read from 0, with `toAbsTime()` = 0. -/
+theorem default_is_epoch : defaultZ = (readUnixMs 0).toZ ∧ secondsZ defaultZ = 0 ∧ defaultZ.ms = 0 := by
+  decide +kernel
+
+/-! ### non-vacuity of the float-path statements -/
+
+/-- Python's `int()` on non-negative rationals is the floor: the contract is satisfiable -/
+example : TruncZ (fun x : ℚ => ⌊x⌋) := fun x hx =>
+  ⟨Int.floor_nonneg.mpr hx, Int.floor_le x, Int.lt_floor_add_one x⟩
+
+/-- an instant in the last half millisecond of a second (the inputs of the seeded change C03-4):
+`readUnixTime(1550941038.9996)` is `2019-02-23 16:57:18.999`, not `….18.1000`. -/
+example : readUnixSpec (fun x : ℚ => ⌊x⌋) (1550941038 + 9996 / 10000) = ⟨⟨2019, 2, 23, 16, 57, 18⟩, 999⟩ := by
+  have h1 : ⌊(1550941038 + 9996 / 10000 : ℚ)⌋ = 1550941038 := by
+    rw [Int.floor_eq_iff]; constructor <;> norm_num
+  have h0 : (1550941038 : ℤ).toNat = 1550941038 := by decide
+  have h2 : ⌊((1550941038 + 9996 / 10000 : ℚ) - ((1550941038 : ℕ) : ℚ)) * 1000⌋ = 999 := by
+    rw [Int.floor_eq_iff]; constructor <;> norm_num
+  have h3 : (999 : ℤ).toNat = 999 := by decide
+  simp only [readUnixSpec, h1, h0, h2, h3]
+  decide +kernel
 
 end TV.C03
